@@ -1,1 +1,1266 @@
-(** Proofs/MergeProofs.v — placeholder, to be written. *)
+(** Proofs/MergeProofs.v — lemmas about Model/Merge.v.
+
+    Layout: (0) [val_eqb] decides equality; (1) dict get/set; (2) paths: lookup / update;
+    (3) the frame relation and the merge; (4) set_defaults; (5) the type-clash table;
+    (6) appending; (7) which keys get written; (8) counter-examples. *)
+From PV Require Import Format FormatProofs Merge.
+From Coq Require Import Lia.
+Open Scope string_scope.
+
+(** * 0. [val_eqb] decides Leibniz equality (nested induction principles by hand) *)
+Section PyexprInd.
+  Variable P : pyexpr -> Prop.
+  Hypothesis HNone : P ENone.
+  Hypothesis HBool : forall b, P (EBool b).
+  Hypothesis HInt : forall z, P (EInt z).
+  Hypothesis HStr : forall s, P (EStr s).
+  Hypothesis HName : forall s, P (EName s).
+  Hypothesis HList : forall l, Forall P l -> P (EList l).
+  Hypothesis HTuple : forall l, Forall P l -> P (ETuple l).
+  Hypothesis HCmp : forall o a b, P a -> P b -> P (ECmp o a b).
+  Hypothesis HAnd : forall a b, P a -> P b -> P (EAnd a b).
+  Hypothesis HOr : forall a b, P a -> P b -> P (EOr a b).
+  Hypothesis HNot : forall a, P a -> P (ENot a).
+  Hypothesis HAdd : forall a b, P a -> P b -> P (EAdd a b).
+  Hypothesis HSub : forall a b, P a -> P b -> P (ESub a b).
+  Hypothesis HMul : forall a b, P a -> P b -> P (EMul a b).
+  Hypothesis HLen : forall a, P a -> P (ELen a).
+  Hypothesis HIn : forall a b, P a -> P b -> P (EIn a b).
+  Hypothesis HIndex : forall a b, P a -> P b -> P (EIndex a b).
+  Hypothesis HWalrus : forall x a, P a -> P (EWalrus x a).
+  Hypothesis HLambda : forall x a b, P a -> P b -> P (ELambdaCall x a b).
+  Hypothesis HComp : forall a x b, P a -> P b -> P (EListComp a x b).
+
+  Fixpoint pyexpr_ind2 (e : pyexpr) : P e :=
+    let fix go (l : list pyexpr) : Forall P l :=
+      match l with
+      | [] => Forall_nil P
+      | x :: r => Forall_cons x (pyexpr_ind2 x) (go r)
+      end in
+    match e with
+    | ENone => HNone
+    | EBool b => HBool b
+    | EInt z => HInt z
+    | EStr s => HStr s
+    | EName s => HName s
+    | EList l => HList l (go l)
+    | ETuple l => HTuple l (go l)
+    | ECmp o a b => HCmp o a b (pyexpr_ind2 a) (pyexpr_ind2 b)
+    | EAnd a b => HAnd a b (pyexpr_ind2 a) (pyexpr_ind2 b)
+    | EOr a b => HOr a b (pyexpr_ind2 a) (pyexpr_ind2 b)
+    | ENot a => HNot a (pyexpr_ind2 a)
+    | EAdd a b => HAdd a b (pyexpr_ind2 a) (pyexpr_ind2 b)
+    | ESub a b => HSub a b (pyexpr_ind2 a) (pyexpr_ind2 b)
+    | EMul a b => HMul a b (pyexpr_ind2 a) (pyexpr_ind2 b)
+    | ELen a => HLen a (pyexpr_ind2 a)
+    | EIn a b => HIn a b (pyexpr_ind2 a) (pyexpr_ind2 b)
+    | EIndex a b => HIndex a b (pyexpr_ind2 a) (pyexpr_ind2 b)
+    | EWalrus x a => HWalrus x a (pyexpr_ind2 a)
+    | ELambdaCall x a b => HLambda x a b (pyexpr_ind2 a) (pyexpr_ind2 b)
+    | EListComp a x b => HComp a x b (pyexpr_ind2 a) (pyexpr_ind2 b)
+    end.
+End PyexprInd.
+
+Section ValInd.
+  Variable P : val -> Prop.
+  Hypothesis HNone : P VNone.
+  Hypothesis HBool : forall b, P (VBool b).
+  Hypothesis HInt : forall z, P (VInt z).
+  Hypothesis HFloat : forall q, P (VFloat q).
+  Hypothesis HStr : forall s, P (VStr s).
+  Hypothesis HBytes : forall s, P (VBytes s).
+  Hypothesis HList : forall l, Forall P l -> P (VList l).
+  Hypothesis HTuple : forall l, Forall P l -> P (VTuple l).
+  Hypothesis HSet : forall l, Forall P l -> P (VSet l).
+  Hypothesis HDict : forall l, Forall (fun kv => P (fst kv) /\ P (snd kv)) l -> P (VDict l).
+  Hypothesis HPy : forall s e, P (VPy s e).
+  Hypothesis HSic : forall s, P (VSic s).
+  Hypothesis HJsonify : forall v, P v -> P (VJsonify v).
+  Hypothesis HObj : forall i, P (VObj i).
+  Hypothesis HExn : forall n m i, P (VExn n m i).
+
+  Fixpoint val_ind2 (v : val) : P v :=
+    let fix go (l : list val) : Forall P l :=
+      match l with
+      | [] => Forall_nil P
+      | x :: r => Forall_cons x (val_ind2 x) (go r)
+      end in
+    let fix god (l : list (val * val)) : Forall (fun kv => P (fst kv) /\ P (snd kv)) l :=
+      match l with
+      | [] => Forall_nil _
+      | (k, x) :: r => Forall_cons (k, x) (conj (val_ind2 k) (val_ind2 x)) (god r)
+      end in
+    match v with
+    | VNone => HNone
+    | VBool b => HBool b
+    | VInt z => HInt z
+    | VFloat q => HFloat q
+    | VStr s => HStr s
+    | VBytes s => HBytes s
+    | VList l => HList l (go l)
+    | VTuple l => HTuple l (go l)
+    | VSet l => HSet l (go l)
+    | VDict l => HDict l (god l)
+    | VPy s e => HPy s e
+    | VSic s => HSic s
+    | VJsonify x => HJsonify x (val_ind2 x)
+    | VObj i => HObj i
+    | VExn n m i => HExn n m i
+    end.
+End ValInd.
+
+Lemma cmpop_eqb_eq a b : cmpop_eqb a b = true <-> a = b.
+Proof. split; [destruct a, b; simpl; congruence|intros ->; destruct b; reflexivity]. Qed.
+
+Lemma pyexpr_eqb_eq : forall a b, pyexpr_eqb a b = true <-> a = b.
+Proof.
+  induction a using pyexpr_ind2; intros b0.
+  all: try (destruct b0; simpl; split; try congruence; try discriminate;
+            rewrite ?andb_true_iff, ?Bool.eqb_true_iff, ?Z.eqb_eq, ?String.eqb_eq, ?cmpop_eqb_eq,
+              ?IHa, ?IHa1, ?IHa2;
+            [intuition congruence | intros E; inversion E; subst; auto]).
+  all: destruct b0; simpl; try (split; congruence).
+  all: match goal with |- _ ?l ?l0 = true <-> _ =>
+         assert (G : forall l0, (fix go (l1 l2 : list pyexpr) {struct l1} : bool :=
+                    match l1 with
+                    | [] => match l2 with [] => true | _ :: _ => false end
+                    | x :: xs => match l2 with [] => false | y :: ys => pyexpr_eqb x y && go xs ys end
+                    end) l l0 = true <-> l = l0);
+         [ clear l0; induction H as [|x l Hx Hl IH]; intros [|y l0]; try (split; congruence);
+           rewrite andb_true_iff, Hx, IH; split; [intros [-> ->]; reflexivity|intros E; inversion E; auto]
+         | rewrite G; split; [congruence|intros E; inversion E; auto] ]
+       end.
+Qed.
+
+Lemma Q_eqb_eq a b : Q_eqb a b = true <-> a = b.
+Proof.
+  unfold Q_eqb. rewrite andb_true_iff, Z.eqb_eq, Pos.eqb_eq. destruct a, b; simpl.
+  split; [intros [-> ->]; reflexivity|intros E; inversion E; auto].
+Qed.
+
+Lemma val_eqb_eq : forall a b, val_eqb a b = true <-> a = b.
+Proof.
+  induction a using val_ind2; intros b0.
+  all: try (destruct b0; simpl; split; try congruence; try discriminate;
+            rewrite ?andb_true_iff, ?Bool.eqb_true_iff, ?Z.eqb_eq, ?String.eqb_eq, ?Q_eqb_eq,
+              ?pyexpr_eqb_eq, ?IHa;
+            [intuition congruence | intros E; inversion E; subst; auto]).
+  all: destruct b0; simpl; try (split; congruence).
+  1-3: match goal with |- _ ?l ?l0 = true <-> _ =>
+         assert (G : forall l0, (fix go (l1 l2 : list val) {struct l1} : bool :=
+                    match l1 with
+                    | [] => match l2 with [] => true | _ :: _ => false end
+                    | x :: xs => match l2 with [] => false | y :: ys => val_eqb x y && go xs ys end
+                    end) l l0 = true <-> l = l0);
+         [ clear l0; induction H as [|x l Hx Hl IH]; intros [|y l0]; try (split; congruence);
+           rewrite andb_true_iff, Hx, IH; split; [intros [-> ->]; reflexivity|intros E; inversion E; auto]
+         | rewrite G; split; [congruence|intros E; inversion E; auto] ]
+       end.
+  match goal with |- _ ?l ?l0 = true <-> _ =>
+         assert (G : forall l0, (fix god (l1 l2 : list (val * val)) {struct l1} : bool :=
+                    match l1 with
+                    | [] => match l2 with [] => true | _ :: _ => false end
+                    | (k1, v1) :: xs => match l2 with [] => false
+                        | (k2, v2) :: ys => val_eqb k1 k2 && val_eqb v1 v2 && god xs ys end
+                    end) l l0 = true <-> l = l0);
+         [ clear l0; induction H as [|[k x] l [Hk Hx] Hl IH]; intros [|[k' y] l0]; try (split; congruence);
+           simpl in Hk, Hx;
+           rewrite !andb_true_iff, Hk, Hx, IH; split; [intros [[-> ->] ->]; reflexivity|intros E; inversion E; auto]
+         | rewrite G; split; [congruence|intros E; inversion E; auto] ]
+       end.
+Qed.
+
+Lemma val_eqb_refl a : val_eqb a a = true.
+Proof. now apply val_eqb_eq. Qed.
+
+Lemma val_eq_dec (a b : val) : {a = b} + {a <> b}.
+Proof.
+  destruct (val_eqb a b) eqn:E.
+  - left. now apply val_eqb_eq.
+  - right. intros H. apply val_eqb_eq in H. congruence.
+Qed.
+
+Lemma val_eqb_neq a b : a <> b -> val_eqb a b = false.
+Proof. intros H. destruct (val_eqb a b) eqn:E; [|reflexivity]. apply val_eqb_eq in E. contradiction. Qed.
+
+(** * 1. Dictionaries *)
+Lemma dict_get_set_same k x d : dict_get k (dict_set k x d) = Some x.
+Proof.
+  induction d as [|[k0 v0] d IH]; simpl.
+  - now rewrite val_eqb_refl.
+  - destruct (val_eqb k k0) eqn:E; simpl; rewrite E; [reflexivity|exact IH].
+Qed.
+
+Lemma dict_get_set_other k k' x d : k' <> k -> dict_get k' (dict_set k x d) = dict_get k' d.
+Proof.
+  intros N. induction d as [|[k0 v0] d IH]; simpl.
+  - now rewrite (val_eqb_neq _ _ N).
+  - destruct (val_eqb k k0) eqn:E; simpl.
+    + apply val_eqb_eq in E. subst k0. now rewrite (val_eqb_neq _ _ N).
+    + destruct (val_eqb k' k0); [reflexivity|exact IH].
+Qed.
+
+(** * 2. Paths *)
+Definition prefix (a p : path) : Prop := exists r, p = (a ++ r)%list.
+(** neither path is at, above or below the other *)
+Definition disjoint (p w : path) : Prop := ~ prefix p w /\ ~ prefix w p.
+
+Lemma prefix_nil p : prefix [] p.
+Proof. now exists p. Qed.
+
+Lemma prefix_cons k a p : prefix (k :: a) (k :: p) <-> prefix a p.
+Proof.
+  split; intros [r H].
+  - exists r. simpl in H. now inversion H.
+  - exists r. simpl. now rewrite H.
+Qed.
+
+Lemma prefix_cons_inv k k' a p : prefix (k :: a) (k' :: p) -> k = k' /\ prefix a p.
+Proof. intros [r H]. simpl in H. inversion H; subst. split; [reflexivity|now exists r]. Qed.
+
+Lemma prefix_refl p : prefix p p.
+Proof. exists []. now rewrite app_nil_r. Qed.
+
+Lemma prefix_trans a b c : prefix a b -> prefix b c -> prefix a c.
+Proof. intros [r ->] [r' ->]. exists (r ++ r')%list. now rewrite app_assoc. Qed.
+
+Lemma prefix_app a r : prefix a (a ++ r)%list.
+Proof. now exists r. Qed.
+
+Lemma strip_prefix_spec a p r : strip_prefix a p = Some r <-> p = (a ++ r)%list.
+Proof.
+  revert p; induction a as [|x a IH]; intros p; simpl.
+  - split; [now inversion 1|now intros ->].
+  - destruct p as [|y p]; [split; discriminate|].
+    destruct (val_eqb x y) eqn:E.
+    + apply val_eqb_eq in E. subst y. rewrite IH. split; [now intros ->|now inversion 1].
+    + split; [discriminate|]. inversion 1; subst. now rewrite val_eqb_refl in E.
+Qed.
+
+Lemma is_prefix_spec a p : is_prefix a p = true <-> prefix a p.
+Proof.
+  unfold is_prefix, prefix. destruct (strip_prefix a p) as [r|] eqn:E.
+  - apply strip_prefix_spec in E. split; [now exists r|reflexivity].
+  - split; [discriminate|]. intros [r H]. apply strip_prefix_spec in H. congruence.
+Qed.
+
+Lemma prefix_dec a p : {prefix a p} + {~ prefix a p}.
+Proof.
+  destruct (is_prefix a p) eqn:E.
+  - left. now apply is_prefix_spec.
+  - right. intros H. apply is_prefix_spec in H. congruence.
+Qed.
+
+Definition disjointb (p w : path) : bool := negb (is_prefix p w) && negb (is_prefix w p).
+
+Lemma disjointb_spec p w : disjointb p w = true <-> disjoint p w.
+Proof.
+  unfold disjointb, disjoint. rewrite andb_true_iff, !negb_true_iff.
+  split; intros [H1 H2]; split.
+  - intros H. apply is_prefix_spec in H. congruence.
+  - intros H. apply is_prefix_spec in H. congruence.
+  - destruct (is_prefix p w) eqn:E; [|reflexivity]. apply is_prefix_spec in E. contradiction.
+  - destruct (is_prefix w p) eqn:E; [|reflexivity]. apply is_prefix_spec in E. contradiction.
+Qed.
+
+Lemma lookup_app v a r :
+  lookup_path v (a ++ r)%list =
+  match lookup_path v a with Some x => lookup_path x r | None => None end.
+Proof.
+  revert v; induction a as [|k a IH]; intros v; simpl; [reflexivity|].
+  destruct v; try reflexivity. destruct (dict_get k l); [apply IH|reflexivity].
+Qed.
+
+(** a write at [a] is invisible from every path that is not at, above or below [a] *)
+Lemma update_at_elsewhere a : forall v p f,
+  ~ prefix a p -> ~ prefix p a -> lookup_path (update_at v a f) p = lookup_path v p.
+Proof.
+  induction a as [|k0 a IH]; intros v p f N1 N2.
+  - exfalso. apply N1. apply prefix_nil.
+  - destruct p as [|k1 p]; [exfalso; apply N2; apply prefix_nil|].
+    simpl update_at. destruct v; try reflexivity.
+    destruct (dict_get k0 l) as [x0|] eqn:G; [|reflexivity].
+    simpl. destruct (val_eq_dec k1 k0) as [->|N].
+    + rewrite dict_get_set_same, G. apply IH.
+      * intros H. apply N1. now apply prefix_cons.
+      * intros H. apply N2. now apply prefix_cons.
+    + now rewrite dict_get_set_other.
+Qed.
+
+(** below the written object one sees the new object *)
+Lemma update_at_under a : forall v r f,
+  lookup_path (update_at v a f) (a ++ r)%list =
+  match lookup_path v a with Some x => lookup_path (f x) r | None => None end.
+Proof.
+  induction a as [|k0 a IH]; intros v r f; simpl; [reflexivity|].
+  destruct v; try reflexivity.
+  destruct (dict_get k0 l) as [x0|] eqn:G.
+  - simpl. rewrite dict_get_set_same. apply IH.
+  - simpl. now rewrite G.
+Qed.
+
+(** strictly above it one sees the same kind of thing, updated inside *)
+Lemma update_at_above p : forall v r f x,
+  lookup_path v p = Some x ->
+  lookup_path (update_at v (p ++ r)%list f) p = Some (update_at x r f).
+Proof.
+  induction p as [|k p IH]; intros v r f x H; simpl in *.
+  - now inversion H.
+  - destruct v; try discriminate.
+    destruct (dict_get k l) as [x0|] eqn:G; [|discriminate].
+    simpl. rewrite dict_get_set_same. now apply IH.
+Qed.
+
+Definition dict_pres (f : val -> val) : Prop := forall d, exists d', f (VDict d) = VDict d'.
+
+Lemma vdict_set_pres k x : dict_pres (vdict_set k x).
+Proof. intros d. simpl. eauto. Qed.
+
+Lemma vlist_extend_pres xs : dict_pres (vlist_extend xs).
+Proof. intros d. simpl. eauto. Qed.
+
+Lemma upd_spec root a f : dict_pres f -> VDict (upd root a f) = update_at (VDict root) a f.
+Proof.
+  intros P. unfold upd. destruct a as [|k a]; simpl.
+  - destruct (P root) as [d' ->]. reflexivity.
+  - destruct (dict_get k root); reflexivity.
+Qed.
+
+(** [current[k] = x] on the dict at [a]: invisible from every path disjoint from [a ++ [k]] *)
+Lemma assign_elsewhere v a k x p :
+  disjoint p (a ++ [k])%list ->
+  lookup_path (update_at v a (vdict_set k x)) p = lookup_path v p.
+Proof.
+  intros [N1 N2]. destruct (prefix_dec a p) as [[r ->]|NP].
+  - rewrite update_at_under, lookup_app.
+    destruct (lookup_path v a) as [xd|]; [|reflexivity].
+    destruct r as [|k' r].
+    + exfalso. apply N1. rewrite app_nil_r. apply prefix_app.
+    + destruct xd; try reflexivity. simpl.
+      rewrite dict_get_set_other; [reflexivity|].
+      intros ->. apply N2. exists r. now rewrite <- app_assoc.
+  - apply update_at_elsewhere; [exact NP|].
+    intros H. apply N1. eapply prefix_trans; [exact H|apply prefix_app].
+Qed.
+
+(** * 3. The frame relation *)
+(** [frame_rel s s']: provided no by-reference value was ever stored up to [s'], the trace only
+    grew, and every path disjoint from all newly written paths has the same value. *)
+Definition frame_rel (s s' : st) : Prop :=
+  s_sh s' = NoShare ->
+  s_sh s = NoShare /\
+  exists new, s_tr s' = (new ++ s_tr s)%list /\
+    forall p, (forall w, In w new -> disjoint p w) ->
+      lookup_path (VDict (s_root s')) p = lookup_path (VDict (s_root s)) p.
+
+Lemma frame_refl s : frame_rel s s.
+Proof. intros H. split; [exact H|]. exists []. split; [reflexivity|]. reflexivity. Qed.
+
+Lemma frame_trans s1 s2 s3 : frame_rel s1 s2 -> frame_rel s2 s3 -> frame_rel s1 s3.
+Proof.
+  intros F12 F23 H3. destruct (F23 H3) as (H2 & n2 & T2 & L2).
+  destruct (F12 H2) as (H1 & n1 & T1 & L1). split; [exact H1|].
+  exists (n2 ++ n1)%list. split; [now rewrite T2, T1, app_assoc|].
+  intros p D. rewrite L2, L1; [reflexivity| |]; intros w I; apply D; apply in_or_app; auto.
+Qed.
+
+Lemma obj_write_sh prot s a f s1 : obj_write prot s a f = Some s1 -> s_sh s1 = s_sh s /\ s_tr s1 = s_tr s.
+Proof.
+  unfold obj_write. destruct (sh_taint (s_sh s) && negb (is_nil a)); [discriminate|].
+  destruct (under prot a); [discriminate|].
+  destruct (mirror (sh_link (s_sh s)) a) as [b|].
+  - destruct (under prot b); [discriminate|]. inversion 1; subst. now split.
+  - inversion 1; subst. now split.
+Qed.
+
+Lemma obj_write_noshare prot s a f s1 :
+  s_sh s = NoShare -> obj_write prot s a f = Some s1 ->
+  s1 = mkst (upd (s_root s) a f) (s_tr s) NoShare.
+Proof.
+  intros N. unfold obj_write. rewrite N. simpl.
+  destruct (under prot a); [discriminate|]. now inversion 1.
+Qed.
+
+Lemma drop_link_noshare sh w : drop_link sh w = NoShare -> sh = NoShare.
+Proof.
+  destruct sh as [|[[u v]|]|]; simpl; try congruence.
+  destruct (is_prefix w u || is_prefix w v); discriminate.
+Qed.
+
+Lemma add_share_noshare sh nested w x : add_share sh nested w x = Some NoShare -> sh = NoShare /\ x = ShNone.
+Proof.
+  destruct x; simpl.
+  - inversion 1. now split.
+  - destruct (is_prefix w q || is_prefix q w); [discriminate|].
+    destruct sh as [|[?|]|]; discriminate.
+  - destruct nested; discriminate.
+Qed.
+
+(** what [assign] does when nothing is shared *)
+Lemma assign_noshare prot s a k x sh stt s' :
+  assign prot s a k x sh = (stt, s') -> s_sh s' = NoShare ->
+  (stt = SUnsup /\ s' = s) \/
+  (stt = SOk /\ sh = ShNone /\ s_sh s = NoShare /\
+   s' = mkst (upd (s_root s) a (vdict_set k x)) ((a ++ [k])%list :: s_tr s) NoShare).
+Proof.
+  unfold assign. intros H N.
+  destruct (obj_write prot s a (vdict_set k x)) as [s1|] eqn:W; [|inversion H; now left].
+  destruct (add_share _ _ _ sh) as [sh'|] eqn:A; [|inversion H; now left].
+  inversion H; subst; clear H. simpl in N. subst sh'.
+  apply add_share_noshare in A. destruct A as [A ->]. apply drop_link_noshare in A.
+  destruct (obj_write_sh _ _ _ _ _ W) as [S1 T1]. rewrite A in S1.
+  right. rewrite (obj_write_noshare _ _ _ _ _ (eq_sym S1) W). simpl. auto.
+Qed.
+
+Lemma extend_noshare prot s w xs sh stt s' :
+  extend prot s w xs sh = (stt, s') -> s_sh s' = NoShare ->
+  (stt = SUnsup /\ s' = s) \/
+  (stt = SOk /\ sh = ShNone /\ s_sh s = NoShare /\
+   s' = mkst (upd (s_root s) w (vlist_extend xs)) (w :: s_tr s) NoShare).
+Proof.
+  unfold extend. intros H N.
+  destruct (obj_write prot s w (vlist_extend xs)) as [s1|] eqn:W; [|inversion H; now left].
+  destruct (add_share _ _ _ sh) as [sh'|] eqn:A; [|inversion H; now left].
+  inversion H; subst; clear H. simpl in N. subst sh'.
+  apply add_share_noshare in A. destruct A as [A ->].
+  destruct (obj_write_sh _ _ _ _ _ W) as [S1 T1]. rewrite A in S1.
+  right. rewrite (obj_write_noshare _ _ _ _ _ (eq_sym S1) W). simpl. auto.
+Qed.
+
+Lemma assign_frame prot s a k x sh stt s' : assign prot s a k x sh = (stt, s') -> frame_rel s s'.
+Proof.
+  intros H N. destruct (assign_noshare _ _ _ _ _ _ _ _ H N) as [[_ ->]|(_ & _ & NS & ->)].
+  - now apply frame_refl.
+  - split; [exact NS|]. exists [(a ++ [k])%list]. split; [reflexivity|].
+    intros p D. simpl. rewrite (upd_spec _ _ _ (vdict_set_pres k x)).
+    apply assign_elsewhere. apply D. now left.
+Qed.
+
+Lemma extend_frame prot s w xs sh stt s' : extend prot s w xs sh = (stt, s') -> frame_rel s s'.
+Proof.
+  intros H N. destruct (extend_noshare _ _ _ _ _ _ _ H N) as [[_ ->]|(_ & _ & NS & ->)].
+  - now apply frame_refl.
+  - split; [exact NS|]. exists [w]. split; [reflexivity|].
+    intros p D. simpl. rewrite (upd_spec _ _ _ (vlist_extend_pres xs)).
+    destruct (D w (or_introl eq_refl)) as [D1 D2].
+    now apply update_at_elsewhere.
+Qed.
+
+(** ** Inversion of one loop iteration: it does nothing, or performs exactly one primitive
+    write under the formatted key, or recurses under the formatted key. *)
+Lemma key_check_inv s k cont o :
+  key_check s k cont = o -> o = cont \/ (snd o = s /\ fst o <> SOk).
+Proof. destruct k; simpl; intros <-; auto; right; split; auto; discriminate. Qed.
+
+Lemma merge_item_cases ff prot rec s a k v stt s' :
+  merge_item ff prot rec s a k v = (stt, s') ->
+  s' = s \/
+  exists kf, fmt ff s k = Ok kf /\
+    ((exists x sh, assign prot s a kf x sh = (stt, s')) \/
+     (exists xs sh, extend prot s (a ++ [kf])%list xs sh = (stt, s')) \/
+     (exists l, v = VDict l /\ rec s (a ++ [kf])%list l = (stt, s'))).
+Proof.
+  intros H. unfold merge_item, lift in H.
+  destruct (fmt ff s k) as [kf| |] eqn:K; try (inversion H; now left).
+  assert (G :
+     (s' = s \/ (exists x sh, assign prot s a kf x sh = (stt, s')) \/
+      (exists xs sh, extend prot s (a ++ [kf])%list xs sh = (stt, s')) \/
+      (exists l, v = VDict l /\ rec s (a ++ [kf])%list l = (stt, s'))) ->
+     s' = s \/ exists kf0, Ok kf = Ok kf0 /\
+       ((exists x sh, assign prot s a kf0 x sh = (stt, s')) \/
+        (exists xs sh, extend prot s (a ++ [kf0])%list xs sh = (stt, s')) \/
+        (exists l, v = VDict l /\ rec s (a ++ [kf0])%list l = (stt, s')))).
+  { intros [E|E]; [now left|right]. exists kf. split; [reflexivity|exact E]. }
+  apply G; clear G.
+  destruct (is_strtag v).
+  - destruct (fmtv ff s v) as [x| |]; try (inversion H; now left).
+    apply key_check_inv in H. destruct H as [H|[H _]]; [|now left]. right; left. eauto.
+  - destruct v; (apply key_check_inv in H; destruct H as [H|[H _]]; [symmetry in H|now left]);
+    try (right; left; eexists; eexists; exact H);
+    (destruct (cur_dict s a) as [cur|]; [|inversion H; now left]);
+    (destruct (dict_get kf cur) as [ev|];
+     [destruct ev|]);
+    repeat match type of H with
+           | context [match ?x with _ => _ end] =>
+               match x with
+               | rec _ _ _ => fail 1
+               | assign _ _ _ _ _ _ => fail 1
+               | extend _ _ _ _ _ => fail 1
+               | _ => destruct x
+               end
+           end;
+    first [ inversion H; now left
+          | right; left; eexists; eexists; exact H
+          | right; right; left; eexists; eexists; exact H
+          | right; right; right; eexists; split; [reflexivity|exact H] ].
+Qed.
+
+Lemma defaults_item_cases ff prot rec s a k v stt s' :
+  defaults_item ff prot rec s a k v = (stt, s') ->
+  (s' = s /\ (stt <> SOk \/
+              exists kf cur ev, fmt ff s k = Ok kf /\ cur_dict s a = Some cur /\
+                                dict_get kf cur = Some ev)) \/
+  exists kf cur, fmt ff s k = Ok kf /\ cur_dict s a = Some cur /\
+    ((exists x sh, dict_get kf cur = None /\ assign prot s a kf x sh = (stt, s')) \/
+     (exists l d, v = VDict l /\ dict_get kf cur = Some (VDict d) /\
+                  rec s (a ++ [kf])%list l = (stt, s'))).
+Proof.
+  intros H. unfold defaults_item, lift in H.
+  destruct (fmt ff s k) as [kf| |] eqn:K;
+    try (inversion H; left; split; [reflexivity|left; discriminate]).
+  apply key_check_inv in H. destruct H as [H|[H1 H2]]; [symmetry in H|left; split; [exact H1|left; exact H2]].
+  destruct (cur_dict s a) as [cur|] eqn:C;
+    [|inversion H; left; split; [reflexivity|left; discriminate]].
+  destruct (dict_get kf cur) as [ev|] eqn:G.
+  - destruct ev; destruct v;
+      first [ inversion H; subst; left; split; [reflexivity|right; exists kf, cur; eexists;
+                split; [reflexivity|]; split; [reflexivity|exact G]]
+            | right; exists kf, cur; split; [reflexivity|]; split; [reflexivity|];
+              right; eexists; eexists; split; [reflexivity|]; split; [exact G|exact H] ].
+  - destruct (fmtv ff s v) as [x| |];
+      try (inversion H; left; split; [reflexivity|left; discriminate]).
+    right. exists kf, cur. split; [reflexivity|]. split; [reflexivity|]. left. eauto.
+Qed.
+
+(** a relation that holds of every primitive write, of doing nothing, and is transitive, holds
+    of the whole merge — whatever the recursive call does, as long as it satisfies it too. *)
+Section Closure.
+  Variable R : st -> st -> Prop.
+  Hypothesis R_refl : forall s, R s s.
+  Hypothesis R_trans : forall s1 s2 s3, R s1 s2 -> R s2 s3 -> R s1 s3.
+  Hypothesis R_extend : forall prot s w xs sh stt s', extend prot s w xs sh = (stt, s') -> R s s'.
+
+  Variable ff : nat.
+  Variable prot : option path.
+
+  Section MergeClosure.
+    Hypothesis R_assign : forall prot s a k x sh stt s', assign prot s a k x sh = (stt, s') -> R s s'.
+
+    Lemma merge_item_closed rec :
+      (forall s a l stt s', rec s a l = (stt, s') -> R s s') ->
+      forall s a k v stt s', merge_item ff prot rec s a k v = (stt, s') -> R s s'.
+    Proof.
+      intros Hrec s a k v stt s' H.
+      destruct (merge_item_cases _ _ _ _ _ _ _ _ _ H)
+        as [->|(kf & _ & [(x & sh & A)|[(xs & sh & A)|(l & _ & A)]])]; eauto.
+    Qed.
+
+    Lemma merge_items_closed rec :
+      (forall s a l stt s', rec s a l = (stt, s') -> R s s') ->
+      forall items s a stt s', merge_items ff prot rec s a items = (stt, s') -> R s s'.
+    Proof.
+      intros Hrec. induction items as [|[k v] items IH]; intros s a stt s' H; simpl in H.
+      - inversion H; subst. apply R_refl.
+      - destruct (merge_item ff prot rec s a k v) as [st1 s1] eqn:E.
+        pose proof (merge_item_closed rec Hrec _ _ _ _ _ _ E) as R1.
+        destruct st1; try (inversion H; subst; exact R1).
+        eapply R_trans; [exact R1|]. eapply IH; exact H.
+    Qed.
+
+    Lemma merge_rec_closed fuel :
+      forall s a items stt s', merge_rec ff prot fuel s a items = (stt, s') -> R s s'.
+    Proof.
+      induction fuel as [|f IH]; intros s a items stt s' H; simpl in H.
+      - inversion H; subst. apply R_refl.
+      - eapply merge_items_closed; [exact IH|exact H].
+    Qed.
+  End MergeClosure.
+
+  (** set_defaults only ever assigns under a key that is absent from [current] *)
+  Hypothesis R_assign_missing : forall prot s a k x sh cur stt s',
+    cur_dict s a = Some cur -> dict_get k cur = None ->
+    assign prot s a k x sh = (stt, s') -> R s s'.
+
+  Lemma defaults_item_closed rec :
+    (forall s a l stt s', rec s a l = (stt, s') -> R s s') ->
+    forall s a k v stt s', defaults_item ff prot rec s a k v = (stt, s') -> R s s'.
+  Proof.
+    intros Hrec s a k v stt s' H.
+    destruct (defaults_item_cases _ _ _ _ _ _ _ _ _ H)
+      as [[-> _]|(kf & cur & _ & C & [(x & sh & G & A)|(l & d & _ & _ & A)])]; eauto.
+  Qed.
+
+  Lemma defaults_items_closed rec :
+    (forall s a l stt s', rec s a l = (stt, s') -> R s s') ->
+    forall items s a stt s', defaults_items ff prot rec s a items = (stt, s') -> R s s'.
+  Proof.
+    intros Hrec. induction items as [|[k v] items IH]; intros s a stt s' H; simpl in H.
+    - inversion H; subst. apply R_refl.
+    - destruct (defaults_item ff prot rec s a k v) as [st1 s1] eqn:E.
+      pose proof (defaults_item_closed rec Hrec _ _ _ _ _ _ E) as R1.
+      destruct st1; try (inversion H; subst; exact R1).
+      eapply R_trans; [exact R1|]. eapply IH; exact H.
+  Qed.
+
+  Lemma defaults_rec_closed fuel :
+    forall s a items stt s', defaults_rec ff prot fuel s a items = (stt, s') -> R s s'.
+  Proof.
+    induction fuel as [|f IH]; intros s a items stt s' H; simpl in H.
+    - inversion H; subst. apply R_refl.
+    - eapply defaults_items_closed; [exact IH|exact H].
+  Qed.
+End Closure.
+
+(** merge: every path disjoint from all written paths keeps its value — for every pair of
+    trees, every fuel, every status (an error half-way through included) *)
+Lemma merge_rec_frame ff prot fuel s a items stt s' :
+  merge_rec ff prot fuel s a items = (stt, s') -> frame_rel s s'.
+Proof.
+  apply (merge_rec_closed frame_rel frame_refl frame_trans extend_frame ff prot assign_frame).
+Qed.
+
+Lemma defaults_rec_frame ff prot fuel s a items stt s' :
+  defaults_rec ff prot fuel s a items = (stt, s') -> frame_rel s s'.
+Proof.
+  apply (defaults_rec_closed frame_rel frame_refl frame_trans ff prot).
+  intros. eapply assign_frame; eauto.
+Qed.
+
+(** * 4. set_defaults never overwrites and adds only what is missing *)
+(** a leaf keeps its exact value; a mapping stays a mapping (it may gain keys) *)
+Definition keeps (x x' : val) : Prop :=
+  match x with VDict _ => exists d', x' = VDict d' | _ => x' = x end.
+
+Lemma keeps_refl x : keeps x x.
+Proof. destruct x; simpl; eauto. Qed.
+
+Lemma keeps_trans x y z : keeps x y -> keeps y z -> keeps x z.
+Proof.
+  destruct x; simpl; try (intros ->; auto; fail).
+  intros [d' ->]. simpl. auto.
+Qed.
+
+Lemma keeps_update_inside x r f : r <> [] -> keeps x (update_at x r f).
+Proof.
+  destruct r as [|k r]; [congruence|]. intros _. destruct x; simpl; try reflexivity.
+  destruct (dict_get k l); eauto.
+Qed.
+
+Definition dflt_rel (s s' : st) : Prop :=
+  s_sh s' = NoShare ->
+  s_sh s = NoShare /\
+  (forall p x, lookup_path (VDict (s_root s)) p = Some x ->
+     exists x', lookup_path (VDict (s_root s')) p = Some x' /\ keeps x x') /\
+  exists new, s_tr s' = (new ++ s_tr s)%list /\
+    forall w, In w new -> lookup_path (VDict (s_root s)) w = None.
+
+Lemma dflt_refl s : dflt_rel s s.
+Proof.
+  intros H. split; [exact H|]. split.
+  - intros p x L. exists x. split; [exact L|apply keeps_refl].
+  - exists []. split; [reflexivity|]. intros w [].
+Qed.
+
+Lemma dflt_trans s1 s2 s3 : dflt_rel s1 s2 -> dflt_rel s2 s3 -> dflt_rel s1 s3.
+Proof.
+  intros F12 F23 H3. destruct (F23 H3) as (H2 & K2 & n2 & T2 & M2).
+  destruct (F12 H2) as (H1 & K1 & n1 & T1 & M1). split; [exact H1|]. split.
+  - intros p x L. destruct (K1 _ _ L) as (x' & L' & Kx). destruct (K2 _ _ L') as (x'' & L'' & Kx').
+    exists x''. split; [exact L''|]. eapply keeps_trans; eauto.
+  - exists (n2 ++ n1)%list. split; [now rewrite T2, T1, app_assoc|].
+    intros w I. apply in_app_or in I. destruct I as [I|I]; [|now apply M1].
+    destruct (lookup_path (VDict (s_root s1)) w) as [x|] eqn:L; [|reflexivity].
+    destruct (K1 _ _ L) as (x' & L' & _). rewrite (M2 _ I) in L'. discriminate.
+Qed.
+
+Lemma cur_dict_lookup s a cur : cur_dict s a = Some cur -> lookup_path (VDict (s_root s)) a = Some (VDict cur).
+Proof.
+  unfold cur_dict. destruct (lookup_path (VDict (s_root s)) a) as [[]|]; try discriminate.
+  now inversion 1.
+Qed.
+
+Lemma assign_missing_dflt prot s a k x sh cur stt s' :
+  cur_dict s a = Some cur -> dict_get k cur = None ->
+  assign prot s a k x sh = (stt, s') -> dflt_rel s s'.
+Proof.
+  intros C G H N. destruct (assign_noshare _ _ _ _ _ _ _ _ H N) as [[_ ->]|(_ & _ & NS & ->)].
+  - now apply dflt_refl.
+  - apply cur_dict_lookup in C. split; [exact NS|]. split.
+    + intros p y L. simpl. rewrite (upd_spec _ _ _ (vdict_set_pres k x)).
+      destruct (prefix_dec a p) as [[r ->]|NP].
+      * rewrite update_at_under, C. rewrite lookup_app, C in L.
+        destruct r as [|k' r].
+        -- simpl in *. inversion L; subst. eexists. split; [reflexivity|]. simpl. eauto.
+        -- simpl in *. destruct (val_eq_dec k' k) as [->|NE].
+           ++ rewrite G in L. discriminate.
+           ++ rewrite dict_get_set_other by exact NE. exists y. split; [exact L|apply keeps_refl].
+      * destruct (prefix_dec p a) as [[r ->]|NP'].
+        -- rewrite (update_at_above _ _ _ _ _ L). eexists. split; [reflexivity|].
+           apply keeps_update_inside. intros ->. apply NP. rewrite app_nil_r. apply prefix_refl.
+        -- rewrite update_at_elsewhere by assumption. exists y. split; [exact L|apply keeps_refl].
+    + exists [(a ++ [k])%list]. split; [reflexivity|]. intros w [<-|[]].
+      rewrite lookup_app, C. simpl. now rewrite G.
+Qed.
+
+Lemma defaults_rec_dflt ff prot fuel s a items stt s' :
+  defaults_rec ff prot fuel s a items = (stt, s') -> dflt_rel s s'.
+Proof.
+  apply (defaults_rec_closed dflt_rel dflt_refl dflt_trans ff prot).
+  intros. eapply assign_missing_dflt; eauto.
+Qed.
+
+(** completeness: after one successful iteration the formatted key is present in [current] *)
+Lemma defaults_item_adds ff prot rec s a k v s' :
+  (forall s b l stt s1, rec s b l = (stt, s1) -> dflt_rel s s1) ->
+  defaults_item ff prot rec s a k v = (SOk, s') -> s_sh s' = NoShare ->
+  exists kf cur', fmt ff s k = Ok kf /\ cur_dict s' a = Some cur' /\ dict_has kf cur' = true.
+Proof.
+  intros Hrec H N.
+  destruct (defaults_item_cases _ _ _ _ _ _ _ _ _ H)
+    as [[-> [C|(kf & cur & ev & K & C & G)]]|(kf & cur & K & C & [(x & sh & G & A)|(l & d & _ & G & A)])].
+  - congruence.
+  - exists kf, cur. unfold dict_has. rewrite G. auto.
+  - destruct (assign_noshare _ _ _ _ _ _ _ _ A N) as [[E _]|(_ & _ & _ & ->)]; [discriminate|].
+    exists kf, (dict_set kf x cur). split; [exact K|]. split.
+    + unfold cur_dict. simpl. rewrite (upd_spec _ _ _ (vdict_set_pres kf x)).
+      rewrite <- (app_nil_r a) at 2. rewrite update_at_under.
+      rewrite (cur_dict_lookup _ _ _ C). reflexivity.
+    + unfold dict_has. now rewrite dict_get_set_same.
+  - destruct (Hrec _ _ _ _ _ A N) as (_ & Keep & _).
+    assert (L : lookup_path (VDict (s_root s)) (a ++ [kf])%list = Some (VDict d)).
+    { rewrite lookup_app, (cur_dict_lookup _ _ _ C). simpl. now rewrite G. }
+    destruct (Keep _ _ L) as (x' & L' & _). rewrite lookup_app in L'.
+    unfold cur_dict. destruct (lookup_path (VDict (s_root s')) a) as [y|]; [|discriminate].
+    simpl in L'. destruct y; try discriminate.
+    exists kf, l0. split; [exact K|]. split; [reflexivity|].
+    unfold dict_has. destruct (dict_get kf l0); [reflexivity|discriminate].
+Qed.
+
+(** * 5. The type-clash table: one lemma per row *)
+Definition mergeable (ev v : val) : bool :=
+  match ev, v with
+  | VDict _, VDict _ | VList _, VList _ | VTuple _, VTuple _ | VSet _, VSet _ => true
+  | _, _ => false
+  end.
+
+Section Table.
+  Variable ff : nat.
+  Variable prot : option path.
+  Variable rec : st -> path -> dict -> out.
+  Variables (s : st) (a : path) (k v kf : val).
+  Hypothesis Hk : fmt ff s k = Ok kf.             (* the key is formatted *)
+  Hypothesis Hhash : key_kind_ok kf = true.       (* and hashable *)
+
+  (** str / special tag: overwrite with the formatted value, whatever is there *)
+  Lemma row_str x :
+    is_strtag v = true -> fmtv ff s v = Ok x ->
+    merge_item ff prot rec s a k v = assign prot s a kf x (leaf_share (s_root s) v x).
+  Proof.
+    intros T F. unfold merge_item, lift. rewrite Hk, T, F.
+    destruct kf; try discriminate; reflexivity.
+  Qed.
+
+  (** bytes: overwrite with the raw value *)
+  Lemma row_bytes b :
+    v = VBytes b -> merge_item ff prot rec s a k v = assign prot s a kf v ShNone.
+  Proof.
+    intros ->. unfold merge_item, lift. rewrite Hk. simpl.
+    destruct kf; try discriminate; reflexivity.
+  Qed.
+
+  Variable cur : dict.
+  Hypothesis Hcur : cur_dict s a = Some cur.
+  (** both mappings: recurse, nothing is written at this level *)
+  Lemma row_map_map d l :
+    dict_get kf cur = Some (VDict d) -> v = VDict l ->
+    merge_item ff prot rec s a k v = rec s (a ++ [kf])%list l.
+  Proof.
+    intros G ->. unfold merge_item, lift. rewrite Hk. simpl.
+    destruct kf; try discriminate Hhash; simpl; rewrite Hcur, G; reflexivity.
+  Qed.
+
+  (** both lists: extend the existing list object with the formatted incoming list *)
+  Lemma row_list_list el l xl :
+    dict_get kf cur = Some (VList el) -> v = VList l -> fmtv ff s v = Ok (VList xl) ->
+    merge_item ff prot rec s a k v
+    = extend prot s (a ++ [kf])%list xl (tree_share ff (s_root s) v).
+  Proof.
+    intros G -> F. unfold merge_item, lift. rewrite Hk. simpl.
+    destruct kf; try discriminate Hhash; simpl; rewrite Hcur, G, F; reflexivity.
+  Qed.
+
+  (** both tuples: existing members, then the formatted incoming members *)
+  Lemma row_tuple_tuple el l xl :
+    dict_get kf cur = Some (VTuple el) -> v = VTuple l -> fmtv ff s v = Ok (VTuple xl) ->
+    merge_item ff prot rec s a k v
+    = assign prot s a kf (VTuple (el ++ xl)%list) (tree_share ff (s_root s) v).
+  Proof.
+    intros G -> F. unfold merge_item, lift. rewrite Hk. simpl.
+    destruct kf; try discriminate Hhash; simpl; rewrite Hcur, G, F; reflexivity.
+  Qed.
+
+  (** both sets: union *)
+  Lemma row_set_set el l xl u :
+    dict_get kf cur = Some (VSet el) -> v = VSet l -> fmtv ff s v = Ok (VSet xl) ->
+    set_of_list (el ++ xl)%list = Some u ->
+    merge_item ff prot rec s a k v = assign prot s a kf (VSet u) ShNone.
+  Proof.
+    intros G -> F U. unfold merge_item, lift. rewrite Hk. simpl.
+    destruct kf; try discriminate Hhash; simpl; rewrite Hcur, G, F, U; reflexivity.
+  Qed.
+
+  (** set_defaults: a present key is left alone unless both sides are mappings *)
+  Lemma drow_present ev :
+    dict_get kf cur = Some ev -> mergeable ev v = false \/ (forall d, ev <> VDict d) ->
+    defaults_item ff prot rec s a k v = (SOk, s).
+  Proof.
+    intros G M. unfold defaults_item, lift. rewrite Hk.
+    destruct kf; try discriminate Hhash; simpl; rewrite Hcur, G;
+      destruct ev; try reflexivity; destruct v; try reflexivity;
+      destruct M as [M|M]; try discriminate M; exfalso; eapply M; reflexivity.
+  Qed.
+
+  Lemma drow_map_map d l :
+    dict_get kf cur = Some (VDict d) -> v = VDict l ->
+    defaults_item ff prot rec s a k v = rec s (a ++ [kf])%list l.
+  Proof.
+    intros G ->. unfold defaults_item, lift. rewrite Hk.
+    destruct kf; try discriminate Hhash; simpl; rewrite Hcur, G; reflexivity.
+  Qed.
+  Hypothesis Hv : is_strtag v = false.
+  Hypothesis Hb : forall b, v <> VBytes b.
+
+  (** key absent: set the formatted value *)
+  Lemma row_absent x :
+    dict_get kf cur = None -> fmtv ff s v = Ok x ->
+    merge_item ff prot rec s a k v = assign prot s a kf x (tree_share ff (s_root s) v).
+  Proof.
+    intros G F. unfold merge_item, lift. rewrite Hk, Hv.
+    destruct v; try discriminate Hv; try (exfalso; eapply Hb; reflexivity);
+      (destruct kf; try discriminate Hhash); simpl; rewrite Hcur, G, F; reflexivity.
+  Qed.
+
+  (** every other pairing of kinds: the formatted incoming value replaces what is there *)
+  Lemma row_clash ev x :
+    dict_get kf cur = Some ev -> mergeable ev v = false -> fmtv ff s v = Ok x ->
+    merge_item ff prot rec s a k v = assign prot s a kf x (tree_share ff (s_root s) v).
+  Proof.
+    intros G M F. unfold merge_item, lift. rewrite Hk, Hv.
+    destruct v; try discriminate Hv; try (exfalso; eapply Hb; reflexivity);
+      (destruct kf; try discriminate Hhash); simpl; rewrite Hcur, G;
+      destruct ev; try discriminate M; rewrite F; reflexivity.
+  Qed.
+
+End Table.
+
+(** set_defaults, key absent (any incoming kind, str / tag / bytes included) *)
+Lemma drow_absent ff prot rec s a k v kf cur x :
+  fmt ff s k = Ok kf -> key_kind_ok kf = true -> cur_dict s a = Some cur ->
+  dict_get kf cur = None -> fmtv ff s v = Ok x ->
+  defaults_item ff prot rec s a k v
+  = assign prot s a kf x (if is_strtag v then leaf_share (s_root s) v x
+                          else tree_share ff (s_root s) v).
+Proof.
+  intros K Hh C G F. unfold defaults_item, lift. rewrite K.
+  destruct kf; try discriminate Hh; simpl; rewrite C, G, F; reflexivity.
+Qed.
+
+(** what the two primitive writes do to the tree when nothing is shared *)
+Lemma assign_effect s a k x cur :
+  s_sh s = NoShare -> cur_dict s a = Some cur ->
+  exists s', assign None s a k x ShNone = (SOk, s') /\ s_sh s' = NoShare /\
+    s_tr s' = (a ++ [k])%list :: s_tr s /\
+    lookup_path (VDict (s_root s')) (a ++ [k])%list = Some x /\
+    cur_dict s' a = Some (dict_set k x cur).
+Proof.
+  intros N C. unfold assign, obj_write. rewrite N. simpl.
+  eexists. split; [reflexivity|]. simpl. split; [reflexivity|]. split; [reflexivity|].
+  apply cur_dict_lookup in C.
+  rewrite (upd_spec _ _ _ (vdict_set_pres k x)). split.
+  - rewrite update_at_under, C. simpl. now rewrite dict_get_set_same.
+  - unfold cur_dict. simpl. rewrite (upd_spec _ _ _ (vdict_set_pres k x)).
+    rewrite <- (app_nil_r a) at 2. rewrite update_at_under, C. reflexivity.
+Qed.
+
+Lemma extend_effect s w xs el :
+  s_sh s = NoShare -> lookup_path (VDict (s_root s)) w = Some (VList el) ->
+  exists s', extend None s w xs ShNone = (SOk, s') /\ s_sh s' = NoShare /\
+    s_tr s' = w :: s_tr s /\
+    lookup_path (VDict (s_root s')) w = Some (VList (el ++ xs)%list).
+Proof.
+  intros N L. unfold extend, obj_write. rewrite N. simpl.
+  eexists. split; [reflexivity|]. simpl. split; [reflexivity|]. split; [reflexivity|].
+  rewrite (upd_spec _ _ _ (vlist_extend_pres xs)).
+  rewrite <- (app_nil_r w) at 2. rewrite update_at_under, L. reflexivity.
+Qed.
+
+(** * 6. Appending: existing members first, then the formatted incoming members *)
+Lemma fmtv_ok ff s v x : fmtv ff s v = Ok x -> fmt ff s v = Ok x.
+Proof.
+  unfold fmtv. destruct (fmt ff s v) as [y| |]; try discriminate.
+  destruct (keys_ok y); [now inversion 1|discriminate].
+Qed.
+
+(** the formatted incoming list / tuple is the member-wise formatted one *)
+Lemma fmt_list_members f s l x :
+  fmt (S f) s (VList l) = Ok x ->
+  exists xl, x = VList xl /\ Forall2 (fun m y => format_value f (s_root s) m = Ok y) l xl.
+Proof. unfold fmt, format_value. apply fmt_iter_list. Qed.
+
+Lemma fmt_tuple_members f s l x :
+  fmt (S f) s (VTuple l) = Ok x ->
+  exists xl, x = VTuple xl /\ Forall2 (fun m y => format_value f (s_root s) m = Ok y) l xl.
+Proof. unfold fmt, format_value. apply fmt_iter_tuple. Qed.
+
+Lemma fmt_set_members f s l x :
+  fmt (S f) s (VSet l) = Ok x ->
+  exists l' xl, x = VSet xl /\ set_of_list l' = Some xl /\
+                Forall2 (fun m y => format_value f (s_root s) m = Ok y) l l'.
+Proof. unfold fmt, format_value. apply fmt_iter_set. Qed.
+
+Lemma set_insert_In v : forall l l', set_insert v l = Some l' -> forall y, In y l' <-> y = v \/ In y l.
+Proof.
+  induction l as [|x r IH]; intros l' H y; simpl in H.
+  - destruct (scalar_key v); [|discriminate]. inversion H; subst. simpl. intuition.
+  - destruct (scalar_key v) as [kv|]; [|discriminate].
+    destruct (scalar_key x) as [kx|]; [|discriminate].
+    destruct (val_eqb v x) eqn:E.
+    + apply val_eqb_eq in E. subst x. inversion H; subst. simpl. intuition.
+    + destruct (key_ltb kv kx).
+      * inversion H; subst. simpl. intuition.
+      * destruct (set_insert v r) as [r'|] eqn:S; simpl in H; [|discriminate].
+        inversion H; subst. simpl. rewrite (IH _ eq_refl). intuition.
+Qed.
+
+Lemma set_of_list_In : forall l l', set_of_list l = Some l' -> forall y, In y l' <-> In y l.
+Proof.
+  induction l as [|x r IH]; intros l' H y; simpl in H.
+  - inversion H; subst. reflexivity.
+  - destruct (set_of_list r) as [r'|] eqn:S; simpl in H; [|discriminate].
+    rewrite (set_insert_In _ _ _ H). simpl. rewrite (IH _ eq_refl). intuition.
+Qed.
+
+Section Appends.
+  Variable f : nat.
+  Variable rec : st -> path -> dict -> out.
+  Variables (s : st) (a : path) (k kf : val) (cur : dict) (l el : list val) (x : val).
+  Hypothesis Hns : s_sh s = NoShare.
+  Hypothesis Hk : fmt (S f) s k = Ok kf.
+  Hypothesis Hhash : key_kind_ok kf = true.
+  Hypothesis Hcur : cur_dict s a = Some cur.
+
+  Lemma merge_list_appends_after :
+    dict_get kf cur = Some (VList el) -> fmtv (S f) s (VList l) = Ok x ->
+    tree_share (S f) (s_root s) (VList l) = ShNone ->
+    exists xl s',
+      Forall2 (fun m y => format_value f (s_root s) m = Ok y) l xl /\
+      merge_item (S f) None rec s a k (VList l) = (SOk, s') /\
+      lookup_path (VDict (s_root s')) (a ++ [kf])%list = Some (VList (el ++ xl)%list) /\
+      s_tr s' = (a ++ [kf])%list :: s_tr s.
+  Proof.
+    intros G F T. destruct (fmt_list_members _ _ _ _ (fmtv_ok _ _ _ _ F)) as (xl & -> & M).
+    assert (L : lookup_path (VDict (s_root s)) (a ++ [kf])%list = Some (VList el)).
+    { rewrite lookup_app, (cur_dict_lookup _ _ _ Hcur). simpl. now rewrite G. }
+    destruct (extend_effect s _ xl el Hns L) as (s' & E & _ & Tr & L').
+    exists xl, s'. split; [exact M|].
+    rewrite (row_list_list (S f) None rec s a k (VList l) kf Hk Hhash cur Hcur el l xl G eq_refl F), T.
+    auto.
+  Qed.
+
+  Lemma merge_tuple_appends_after :
+    dict_get kf cur = Some (VTuple el) -> fmtv (S f) s (VTuple l) = Ok x ->
+    tree_share (S f) (s_root s) (VTuple l) = ShNone ->
+    exists xl s',
+      Forall2 (fun m y => format_value f (s_root s) m = Ok y) l xl /\
+      merge_item (S f) None rec s a k (VTuple l) = (SOk, s') /\
+      lookup_path (VDict (s_root s')) (a ++ [kf])%list = Some (VTuple (el ++ xl)%list).
+  Proof.
+    intros G F T. destruct (fmt_tuple_members _ _ _ _ (fmtv_ok _ _ _ _ F)) as (xl & -> & M).
+    destruct (assign_effect s a kf (VTuple (el ++ xl)%list) cur Hns Hcur) as (s' & E & _ & _ & L' & _).
+    exists xl, s'. split; [exact M|].
+    rewrite (row_tuple_tuple (S f) None rec s a k (VTuple l) kf Hk Hhash cur Hcur el l xl G eq_refl F), T.
+    auto.
+  Qed.
+
+  (** sets: the result holds exactly the existing members and the formatted incoming ones *)
+  Lemma merge_set_union u xl :
+    dict_get kf cur = Some (VSet el) -> fmtv (S f) s (VSet l) = Ok (VSet xl) ->
+    set_of_list (el ++ xl)%list = Some u ->
+    exists s',
+      merge_item (S f) None rec s a k (VSet l) = (SOk, s') /\
+      lookup_path (VDict (s_root s')) (a ++ [kf])%list = Some (VSet u) /\
+      forall y, In y u <-> In y el \/ In y xl.
+  Proof.
+    intros G F U.
+    destruct (assign_effect s a kf (VSet u) cur Hns Hcur) as (s' & E & _ & _ & L' & _).
+    exists s'.
+    rewrite (row_set_set (S f) None rec s a k (VSet l) kf Hk Hhash cur Hcur el l xl u G eq_refl F U).
+    split; [exact E|]. split; [exact L'|].
+    intros y. rewrite (set_of_list_In _ _ U). apply in_app_iff.
+  Qed.
+End Appends.
+
+(** * 7. Which paths get written: the formatted images of the incoming tree's key paths *)
+(** [named_by ff a items w]: [w] is [a] followed by the formatted images (each against some
+    context [c] — the one current at that moment) of the keys along a path of the incoming
+    tree [items], descending through incoming mappings only. *)
+Inductive named_by (ff : nat) : path -> dict -> path -> Prop :=
+| nb_here a items k v kf c :
+    In (k, v) items -> format_value ff c k = Ok kf -> named_by ff a items (a ++ [kf])%list
+| nb_deep a items k l kf c w :
+    In (k, VDict l) items -> format_value ff c k = Ok kf ->
+    named_by ff (a ++ [kf])%list l w -> named_by ff a items w.
+
+Definition named_rel (ff : nat) (a : path) (items : dict) (s s' : st) : Prop :=
+  exists new, s_tr s' = (new ++ s_tr s)%list /\ forall w, In w new -> named_by ff a items w.
+
+Lemma named_by_incl ff a items items' w :
+  (forall kv, In kv items -> In kv items') -> named_by ff a items w -> named_by ff a items' w.
+Proof.
+  intros I H. revert items' I. induction H; intros items' I.
+  - eapply nb_here; eauto.
+  - eapply nb_deep; eauto.
+Qed.
+
+Lemma named_by_below ff a items w : named_by ff a items w -> exists kf r, w = (a ++ kf :: r)%list.
+Proof.
+  induction 1 as [a items k v kf c|a items k l kf c w _ _ _ (kf' & r & ->)].
+  - now exists kf, [].
+  - exists kf, (kf' :: r). now rewrite <- app_assoc.
+Qed.
+
+Lemma assign_tr prot s a k x sh stt s' :
+  assign prot s a k x sh = (stt, s') -> s_tr s' = s_tr s \/ s_tr s' = (a ++ [k])%list :: s_tr s.
+Proof.
+  unfold assign. destruct (obj_write prot s a (vdict_set k x)) as [s1|] eqn:W; [|inversion 1; now left].
+  destruct (add_share _ _ _ sh); inversion 1; subst; [|now left].
+  right. simpl. now destruct (obj_write_sh _ _ _ _ _ W) as [_ ->].
+Qed.
+
+Lemma extend_tr prot s w xs sh stt s' :
+  extend prot s w xs sh = (stt, s') -> s_tr s' = s_tr s \/ s_tr s' = w :: s_tr s.
+Proof.
+  unfold extend. destruct (obj_write prot s w (vlist_extend xs)) as [s1|] eqn:W; [|inversion 1; now left].
+  destruct (add_share _ _ _ sh); inversion 1; subst; [|now left].
+  right. simpl. now destruct (obj_write_sh _ _ _ _ _ W) as [_ ->].
+Qed.
+
+Lemma named_rel_nil ff a items s : named_rel ff a items s s.
+Proof. exists []. split; [reflexivity|]. intros w []. Qed.
+
+Lemma named_rel_trans ff a items s1 s2 s3 :
+  named_rel ff a items s1 s2 -> named_rel ff a items s2 s3 -> named_rel ff a items s1 s3.
+Proof.
+  intros (n1 & T1 & N1) (n2 & T2 & N2). exists (n2 ++ n1)%list.
+  split; [now rewrite T2, T1, app_assoc|].
+  intros w I. apply in_app_or in I. destruct I; auto.
+Qed.
+
+Lemma named_rel_incl ff a items items' s s' :
+  (forall kv, In kv items -> In kv items') -> named_rel ff a items s s' -> named_rel ff a items' s s'.
+Proof.
+  intros I (n & T & N). exists n. split; [exact T|].
+  intros w Hw. eapply named_by_incl; eauto.
+Qed.
+
+Lemma merge_item_named ff prot rec s a k v stt s' :
+  (forall s b l stt s', rec s b l = (stt, s') -> named_rel ff b l s s') ->
+  merge_item ff prot rec s a k v = (stt, s') -> named_rel ff a [(k, v)] s s'.
+Proof.
+  intros Hrec H.
+  destruct (merge_item_cases _ _ _ _ _ _ _ _ _ H)
+    as [->|(kf & K & [(x & sh & A)|[(xs & sh & A)|(l & -> & A)]])].
+  - apply named_rel_nil.
+  - destruct (assign_tr _ _ _ _ _ _ _ _ A) as [T|T].
+    + exists []. split; [exact T|]. intros w [].
+    + exists [(a ++ [kf])%list]. split; [exact T|]. intros w [<-|[]].
+      eapply nb_here; [now left|exact K].
+  - destruct (extend_tr _ _ _ _ _ _ _ A) as [T|T].
+    + exists []. split; [exact T|]. intros w [].
+    + exists [(a ++ [kf])%list]. split; [exact T|]. intros w [<-|[]].
+      eapply nb_here; [now left|exact K].
+  - destruct (Hrec _ _ _ _ _ A) as (n & T & N). exists n. split; [exact T|].
+    intros w I. eapply nb_deep; [now left|exact K|auto].
+Qed.
+
+Lemma merge_items_named ff prot rec :
+  (forall s b l stt s', rec s b l = (stt, s') -> named_rel ff b l s s') ->
+  forall items s a stt s', merge_items ff prot rec s a items = (stt, s') -> named_rel ff a items s s'.
+Proof.
+  intros Hrec. induction items as [|[k v] items IH]; intros s a stt s' H; simpl in H.
+  - inversion H; subst. apply named_rel_nil.
+  - destruct (merge_item ff prot rec s a k v) as [st1 s1] eqn:E.
+    assert (R1 : named_rel ff a ((k, v) :: items) s s1).
+    { eapply named_rel_incl; [|eapply merge_item_named; eauto]. intros kv [<-|[]]. now left. }
+    destruct st1; try (inversion H; subst; exact R1).
+    eapply named_rel_trans; [exact R1|].
+    eapply named_rel_incl; [|eapply IH; exact H]. intros kv I. now right.
+Qed.
+
+Lemma merge_rec_named ff prot fuel :
+  forall s a items stt s', merge_rec ff prot fuel s a items = (stt, s') -> named_rel ff a items s s'.
+Proof.
+  induction fuel as [|f IH]; intros s a items stt s' H; simpl in H.
+  - inversion H; subst. apply named_rel_nil.
+  - eapply merge_items_named; [exact IH|exact H].
+Qed.
+
+Lemma defaults_item_named ff prot rec s a k v stt s' :
+  (forall s b l stt s', rec s b l = (stt, s') -> named_rel ff b l s s') ->
+  defaults_item ff prot rec s a k v = (stt, s') -> named_rel ff a [(k, v)] s s'.
+Proof.
+  intros Hrec H.
+  destruct (defaults_item_cases _ _ _ _ _ _ _ _ _ H)
+    as [[-> _]|(kf & cur & K & _ & [(x & sh & _ & A)|(l & d & -> & _ & A)])].
+  - apply named_rel_nil.
+  - destruct (assign_tr _ _ _ _ _ _ _ _ A) as [T|T].
+    + exists []. split; [exact T|]. intros w [].
+    + exists [(a ++ [kf])%list]. split; [exact T|]. intros w [<-|[]].
+      eapply nb_here; [now left|exact K].
+  - destruct (Hrec _ _ _ _ _ A) as (n & T & N). exists n. split; [exact T|].
+    intros w I. eapply nb_deep; [now left|exact K|auto].
+Qed.
+
+Lemma defaults_items_named ff prot rec :
+  (forall s b l stt s', rec s b l = (stt, s') -> named_rel ff b l s s') ->
+  forall items s a stt s', defaults_items ff prot rec s a items = (stt, s') -> named_rel ff a items s s'.
+Proof.
+  intros Hrec. induction items as [|[k v] items IH]; intros s a stt s' H; simpl in H.
+  - inversion H; subst. apply named_rel_nil.
+  - destruct (defaults_item ff prot rec s a k v) as [st1 s1] eqn:E.
+    assert (R1 : named_rel ff a ((k, v) :: items) s s1).
+    { eapply named_rel_incl; [|eapply defaults_item_named; eauto]. intros kv [<-|[]]. now left. }
+    destruct st1; try (inversion H; subst; exact R1).
+    eapply named_rel_trans; [exact R1|].
+    eapply named_rel_incl; [|eapply IH; exact H]. intros kv I. now right.
+Qed.
+
+Lemma defaults_rec_named ff prot fuel :
+  forall s a items stt s', defaults_rec ff prot fuel s a items = (stt, s') -> named_rel ff a items s s'.
+Proof.
+  induction fuel as [|f IH]; intros s a items stt s' H; simpl in H.
+  - inversion H; subst. apply named_rel_nil.
+  - eapply defaults_items_named; [exact IH|exact H].
+Qed.
+
+(** a key without braces (or a non-string key) names itself *)
+Definition lit_key (k : val) : Prop :=
+  match k with
+  | VStr s => no_brace s = true
+  | VInt _ | VNone | VBytes _ => True
+  | _ => False
+  end.
+
+Lemma lit_key_formats_to_itself f c k kf :
+  lit_key k -> format_value (S f) c k = Ok kf -> kf = k.
+Proof.
+  unfold format_value. destruct k; simpl; try contradiction; intros L H; try (now inversion H).
+  rewrite keep_type_no_brace in H by exact L. now inversion H.
+Qed.
+
+(** * 8. Top-level corollaries and counter-examples *)
+Lemma merge_top_frame ff fuel root add stt s' :
+  merge_top ff fuel root add = (stt, s') -> s_sh s' = NoShare ->
+  forall p, (forall w, In w (s_tr s') -> disjoint p w) ->
+    lookup_path (VDict (s_root s')) p = lookup_path (VDict root) p.
+Proof.
+  intros H N p D. destruct (merge_rec_frame _ _ _ _ _ _ _ _ H N) as (_ & new & T & L).
+  simpl in T. rewrite app_nil_r in T. subst new. now apply L.
+Qed.
+
+Lemma merge_top_named ff fuel root add stt s' :
+  merge_top ff fuel root add = (stt, s') -> forall w, In w (s_tr s') -> named_by ff [] add w.
+Proof.
+  intros H w I. destruct (merge_rec_named _ _ _ _ _ _ _ _ H) as (new & T & N).
+  simpl in T. rewrite app_nil_r in T. subst new. now apply N.
+Qed.
+
+Lemma defaults_top_frame ff fuel root add stt s' :
+  defaults_top ff fuel root add = (stt, s') -> s_sh s' = NoShare ->
+  forall p, (forall w, In w (s_tr s') -> disjoint p w) ->
+    lookup_path (VDict (s_root s')) p = lookup_path (VDict root) p.
+Proof.
+  intros H N p D. destruct (defaults_rec_frame _ _ _ _ _ _ _ _ H N) as (_ & new & T & L).
+  simpl in T. rewrite app_nil_r in T. subst new. now apply L.
+Qed.
+
+Lemma defaults_top_named ff fuel root add stt s' :
+  defaults_top ff fuel root add = (stt, s') -> forall w, In w (s_tr s') -> named_by ff [] add w.
+Proof.
+  intros H w I. destruct (defaults_rec_named _ _ _ _ _ _ _ _ H) as (new & T & N).
+  simpl in T. rewrite app_nil_r in T. subst new. now apply N.
+Qed.
+
+(** every existing path keeps its value: a leaf exactly, a mapping stays a mapping *)
+Lemma defaults_top_never_overwrites ff fuel root add stt s' :
+  defaults_top ff fuel root add = (stt, s') -> s_sh s' = NoShare ->
+  forall p x, lookup_path (VDict root) p = Some x ->
+    exists x', lookup_path (VDict (s_root s')) p = Some x' /\ keeps x x'.
+Proof. intros H N. destruct (defaults_rec_dflt _ _ _ _ _ _ _ _ H N) as (_ & K & _). exact K. Qed.
+
+Lemma defaults_top_keeps_none ff fuel root add stt s' p :
+  defaults_top ff fuel root add = (stt, s') -> s_sh s' = NoShare ->
+  lookup_path (VDict root) p = Some VNone -> lookup_path (VDict (s_root s')) p = Some VNone.
+Proof.
+  intros H N L. destruct (defaults_top_never_overwrites _ _ _ _ _ _ H N _ _ L) as (x' & L' & K).
+  simpl in K. now subst x'.
+Qed.
+
+(** every path it writes was missing *)
+Lemma defaults_top_writes_only_missing ff fuel root add stt s' :
+  defaults_top ff fuel root add = (stt, s') -> s_sh s' = NoShare ->
+  forall w, In w (s_tr s') -> lookup_path (VDict root) w = None.
+Proof.
+  intros H N w I. destruct (defaults_rec_dflt _ _ _ _ _ _ _ _ H N) as (_ & _ & new & T & M).
+  simpl in T. rewrite app_nil_r in T. subst new. now apply M.
+Qed.
+
+(** ** Counter-examples (evaluated) *)
+(** a value stored by reference ([{lst:ff}]) and a second key formatting to the same key:
+    the list object reachable as [lst] is extended although nothing names [lst]. *)
+Definition cx_root : dict :=
+  [(VStr "lst", VList [VInt 0]); (VStr "kx", VStr "x"); (VStr "dct", VDict [(VStr "p", VInt 1)])].
+Definition cx_add_list : dict := [(VStr "x", VStr "{lst:ff}"); (VStr "{kx}", VList [VInt 1])].
+Definition cx_add_dict : dict :=
+  [(VStr "x", VPy "dct" (EName "dct")); (VStr "{kx}", VDict [(VStr "new", VInt 1)])].
+
+Lemma merge_frame_refuted :
+  exists root add p s',
+    merge_top FUEL FUEL root add = (SOk, s') /\
+    (forall w, In w (s_tr s') -> disjoint p w) /\
+    lookup_path (VDict (s_root s')) p <> lookup_path (VDict root) p.
+Proof.
+  exists cx_root, cx_add_list, [VStr "lst"]. eexists. split; [vm_compute; reflexivity|]. split.
+  - intros w I. apply disjointb_spec. simpl in I.
+    destruct I as [<-|[<-|[]]]; vm_compute; reflexivity.
+  - vm_compute. discriminate.
+Qed.
+
+Lemma defaults_frame_refuted :
+  exists root add p s',
+    defaults_top FUEL FUEL root add = (SOk, s') /\
+    (forall w, In w (s_tr s') -> disjoint p w) /\
+    lookup_path (VDict root) p = None /\
+    lookup_path (VDict (s_root s')) p <> None.
+Proof.
+  exists cx_root, cx_add_dict, [VStr "dct"; VStr "new"]. eexists.
+  split; [vm_compute; reflexivity|]. split; [|split].
+  - intros w I. apply disjointb_spec. simpl in I.
+    destruct I as [<-|[<-|[]]]; vm_compute; reflexivity.
+  - vm_compute. reflexivity.
+  - vm_compute. discriminate.
+Qed.
+
+(** reading "the paths the incoming mapping names" statically — format the incoming mapping
+    against the context as it was BEFORE the merge — is refuted without any sharing: a key
+    is formatted against the context as it is at that moment, so it can read a key merged
+    a moment earlier. *)
+Definition cx2_root : dict := [(VStr "k", VStr "a"); (VStr "a", VInt 1); (VStr "b", VInt 2)].
+Definition cx2_add : dict := [(VStr "k", VStr "b"); (VStr "{k}", VInt 9)].
+
+Lemma merge_frame_static_refuted :
+  exists root add fadd k s',
+    format_value FUEL root (VDict add) = Ok (VDict fadd) /\
+    merge_top FUEL FUEL root add = (SOk, s') /\ s_sh s' = NoShare /\
+    dict_get k fadd = None /\
+    lookup_path (VDict (s_root s')) [k] <> lookup_path (VDict root) [k].
+Proof.
+  exists cx2_root, cx2_add. eexists. exists (VStr "b"). eexists.
+  split; [vm_compute; reflexivity|]. split; [vm_compute; reflexivity|].
+  split; [reflexivity|]. split; [vm_compute; reflexivity|]. vm_compute. discriminate.
+Qed.
+
+Lemma defaults_rec_item_adds ff prot f s a k v s' :
+  defaults_item ff prot (defaults_rec ff prot f) s a k v = (SOk, s') -> s_sh s' = NoShare ->
+  exists kf cur', fmt ff s k = Ok kf /\ cur_dict s' a = Some cur' /\ dict_has kf cur' = true.
+Proof. apply defaults_item_adds. intros. eapply defaults_rec_dflt; eauto. Qed.
